@@ -26,6 +26,12 @@
      C07_find_object_old_name -- same hypotheses, D a top-level module: System.find_object with the old qualified name
         D.x returns the moved object in the final state of every schedule (the old name is not registered any more; the
         fallback through the root module and the alias the move left there finds it).
+     C07_code_reparent_is_model, C07_code_registry_walks_is_model -- THE TIE TO THE SOURCE: the current bodies of
+        Documentable.reparent, _handle_reparenting_pre and _handle_reparenting_post (pydoctor/model.py), translated
+        statement by statement into Gen/ReexportCode.v, interpret to the model's reparent / unregister / register for
+        every state and all arguments (reparent: the object has a parent that can contain imports, else Python raises).
+        Model/Project.v's reparent now follows the Python statement by statement, including the second
+        _handle_reparenting_post; Proofs/ProjectMove.v shows that pass re-assigns the same keys on coherent states.
    REFUTED on the faithful model (known finding C07-stale-defining-module-name):
      C07_reach_via_defining_module_refuted -- `from D import x` in a consumer: the name, a base class, link_to are
         unresolved under every schedule.
@@ -36,6 +42,7 @@ From Coq Require Import ZArith NArith List Bool Permutation.
 From PydoctorVerif Require Import Base.Sexp Model.Project Model.Linker Spec.ProjectStatic
      Proofs.ProjectBase Proofs.ProjectRegistry Proofs.ProjectStaticCheck Proofs.ProjectMove Proofs.LinkerProofs
      Proofs.ProjectReach Proofs.ProjectMoveStar.
+From PydoctorVerif Require Model.ReexportIR Gen.ReexportCode Proofs.ReexportIRProofs.
 Import ListNotations.
 Local Open Scope N_scope.
 
@@ -488,3 +495,22 @@ Proof.
   - repeat (destruct H as [<-|H]; [vm_compute; reflexivity|]). destruct H.
   - repeat (destruct H as [<-|H]; [vm_compute; reflexivity|]). destruct H.
 Qed.
+
+(* ---------------------------------------------------------------------------------------------------------------
+   The tie to the source.  Gen/ReexportCode.v holds the CURRENT text of Documentable.reparent,
+   _handle_reparenting_pre and _handle_reparenting_post (pydoctor/model.py), translated statement by statement by
+   harness/gen/gen_c06_code.py into the language of Model/ReexportIR.v.  Interpreting that code IS the model's
+   reparent / unregister / register, for every state and all arguments. *)
+Theorem C07_code_registry_walks_is_model :
+  forall (f : nat) (s : state) (o : oid),
+    ReexportIR.pre_ir ReexportCode.reexport_code f s o = Some (unregister s (subtree_f f s o)) /\
+    ReexportIR.post_ir ReexportCode.reexport_code f s o = Some (register s (subtree_f f s o)).
+Proof. intros f s o. split; [apply ReexportIRProofs.pre_ir_eq|apply ReexportIRProofs.post_ir_eq]. Qed.
+
+(* the object has a parent that can contain imports (Python raises at the `assert` otherwise) *)
+Theorem C07_code_reparent_is_model :
+  forall (s : state) (o np : oid) (nn : N) (ob : obj) (q : oid),
+    objs s o = Some ob -> o_parent ob = Some q -> ReexportIR.is_inst s q ReexportIR.CScope = true ->
+    ReexportIR.reparent_ir ReexportCode.reexport_code s o np nn = Some (reparent s o np nn).
+Proof. exact ReexportIRProofs.reparent_ir_eq. Qed.
+
